@@ -40,6 +40,7 @@ PROPERTY C08_FF
 PROPERTY C08_Foreign
 PROPERTY C12_Held
 PROPERTY C20_EntryFate
+PROPERTY C19_DeclineCleans
 PROPERTY C06_Gate
 PROPERTY C04_Gate
 CHECK_DEADLOCK FALSE
